@@ -481,3 +481,20 @@ Proof.
   clear F. induction R as [x | x y z K _ IH]; auto.
   apply IH. rewrite <- (wf_sib h W x y K). exact P.
 Qed.
+
+Lemma wf_meaning h : wf h <->
+  (forall n m, next h n = Some m <-> prev h m = Some n) /\
+  (forall p c, first h p = Some c -> parent h c = Some p /\ prev h c = None) /\
+  (forall p c, last h p = Some c -> parent h c = Some p /\ next h c = None) /\
+  (forall n m, next h n = Some m -> parent h n = parent h m) /\
+  (forall c p, parent h c = Some p -> prev h c = None -> first h p = Some c) /\
+  (forall c p, parent h c = Some p -> next h c = None -> last h p = Some c) /\
+  (forall p, first h p = None <-> last h p = None) /\
+  (forall n, ends (next h) n).
+Proof.
+  split.
+  - intro W. split; [exact (wf_np h W)|]. split; [exact (wf_first h W)|]. split; [exact (wf_last h W)|].
+    split; [exact (wf_sib h W)|]. split; [exact (wf_head h W)|]. split; [exact (wf_tail h W)|].
+    split; [exact (wf_fl h W) | exact (wf_ends h W)].
+  - intros (A & B & C & D & E & F & G & H). constructor; auto.
+Qed.
